@@ -206,7 +206,7 @@ func runC14(c *mon.Ctx) {
 	classes := append([]uint8{}, tags...)
 	classes = append(classes, 0x80, 0xC7, 0xFE, 0x02, 0x7E, 0xFF) // user-defined and unknown tags
 	// stage tag: per tag
-	per := c.Pick(8000, 100000)
+	per := c.Pick(8000, 300000)
 	for ti, tag := range classes {
 		for k := int64(0); k < per; k++ {
 			idx := int64(ti)*per + k
@@ -258,7 +258,7 @@ func runC14(c *mon.Ctx) {
 		c.Case(mon.HashBytes("loop", b), len(ds) > 0)
 	}
 	// stage malformed: declared length shorter / longer than the body the tag implies, then a sentinel
-	nm := c.Pick(150000, 1500000)
+	nm := c.Pick(150000, 6000000)
 	for i := int64(0); i < nm; i++ {
 		if !c.Mine("malformed", i) {
 			continue
